@@ -17,7 +17,7 @@ func init() {
 	register(&Property{
 		ID:      "C11",
 		Run:     runC11,
-		Explain: "Static lockset analysis (flow-sensitive must-held locks, context-sensitive through static callees, roots = every exported entry point, goroutine body and otherwise uncalled function of package client): (1) guarded-by table — every read of sessions.Entries, of a session's time/ticket/key/cancel fields and of client.Cache.Entries holds the owning mutex (R or W), every write holds it in W mode, with the two recognised exemptions (object not yet published; channel field received from in the goroutine started after it was written); (2) every store through memory reachable from the *Client receiver made in a context rooted at an exported Client method is under a mutex of the same or an enclosing object; (3) the read-only configuration API (GetKDCs, GetKpasswdServers, ResolveRealm, JSON) performs no store through memory aliased from the receiver, followed interprocedurally into callees that receive an aliased slice; (4) the lock-order graph over the client's mutexes is acyclic with no same-object re-entry, and no network exchange is reachable while a lock is held. Race freedom under every schedule is reduced to these lockset conditions; schedules are not executed.",
+		Explain: "Static lockset analysis (flow-sensitive must-held locks, context-sensitive through static callees, roots = every exported entry point, goroutine body and otherwise uncalled function of package client): (1) guarded-by table — every read of sessions.Entries, of a session's time/ticket/key/cancel fields and of client.Cache.Entries holds the owning mutex (R or W), every write holds it in W mode, with the two recognised exemptions (object not yet published; channel field received from in the goroutine started after it was written); (2) every store through memory reachable from the *Client receiver made in a context rooted at an exported Client method is under a mutex of the same or an enclosing object; (3) the read-only configuration API (GetKDCs, GetKpasswdServers, ResolveRealm, JSON) performs no store through memory aliased from the receiver, followed interprocedurally into callees that receive an aliased slice; (4) the lock-order graph over the client's mutexes is acyclic with no same-object re-entry, and no network exchange is reachable while a lock is held. Race freedom under every schedule is reduced to these lockset conditions; schedules are not executed. Added: every channel that is sent on while a lock is held is created with constant capacity ≥ 1.",
 		NotDecided: []string{
 			"absence of races inside dependencies; liveness of the renewal goroutine; fairness",
 			"whether a channel send under a lock can block (depends on how often a session is cancelled — a history question; listed as notes)",
